@@ -5,7 +5,8 @@
    reference answer to l1, id and l2 together for its object. *)
 From Coq Require Import String Ascii List Bool Arith ZArith Lia.
 From GW Require Import Base.Res Base.GoStr Base.Json Gql.Syntax Gql.Spec Gw.Points
-     Proofs.CodecProofs Proofs.PointsProofs Proofs.FindProofs Proofs.StitchSound.
+     Proofs.CodecProofs Proofs.PointsProofs Proofs.FindProofs.
+From GW Require Import Proofs.StitchSound.
 Import ListNotations.
 Open Scope string_scope.
 Open Scope list_scope.
@@ -22,7 +23,7 @@ Section Join.
   Variable w : world.
   Variable frags : list fragdef.
   Variable vars : list (string * json).
-  Hypothesis world_atomic : forall o rt c, atomic_f (resolve w vars o rt c).
+  Hypothesis world_atomic : atomic_world w vars.
 
   (* the parent's sub-selection: l1 and the join id, in collected form *)
   Variable l1 : list sel.
@@ -91,7 +92,8 @@ Section Join.
     rewrite Eid in Hid. injection Hid as <-.
     rewrite (node_answer fuel o l2 Hf) in Hans. injection Hans as <-.
     cbn [jget] in Hnode. rewrite String.eqb_refl in Hnode. injection Hnode as <-.
-    exact (stitch_at_point w frags vars world_atomic (S fuel) (Some o) (b_type o) sub1 l2 p acc acc' good_sub G2 C Hp Hold Hins).
+    exact (stitch_at_point w frags vars world_atomic (S fuel) (Some o) (b_type o) sub1 l2 p acc acc'
+             (find_obj_in _ _ _ Hf) good_sub G2 C Hp Hold Hins).
   Qed.
 
   (* ... and when the client did not ask for id, scrubbing it at the point leaves exactly the
@@ -191,14 +193,14 @@ Example join_example :
   let l2 := [Field "" "photo" [] [] []] in
   let acc := exec 6 w [] [] None "Query" [Field "" "me" [] [] (l1 ++ [id_sel])] in
   let o := {| b_id := "u:1#x"; b_type := "User"; b_fields := [("name", FScalar (JStr "ann")); ("photo", FScalar (JStr "p.png"))] |} in
-  good (l1 ++ [id_sel]) /\ good l2 /\ compat (l1 ++ [id_sel]) l2 /\
+  atomic_world w [] /\ good (l1 ++ [id_sel]) /\ good l2 /\ compat (l1 ++ [id_sel]) l2 /\
   extract_value ["me"] acc = Ok (exec 5 w [] [] (Some o) "User" (l1 ++ [id_sel])) /\
   exists acc' acc'',
     insert_object acc ["me"] (exec 5 w [] [] (Some o) "User" l2) = Ok acc' /\
     scrub_at "id" acc' ["me"] = Ok acc'' /\
     acc'' = JObj [("me", JObj [("name", JStr "ann"); ("photo", JStr "p.png")])].
 Proof.
-  cbv zeta. split; [|split; [|split; [|split]]].
+  cbv zeta. split; [apply atomic_world_intro; cbn; repeat constructor|]. split; [|split; [|split; [|split]]].
   - constructor; [repeat constructor|repeat constructor; cbn; intuition discriminate|repeat constructor].
   - constructor; [repeat constructor|repeat constructor; cbn; intuition discriminate|repeat constructor].
   - constructor. intros s1 s2 H1 H2 Hk. cbn in H1, H2. destruct H1 as [<-|[<-|[]]]; destruct H2 as [<-|[]]; discriminate Hk.
